@@ -118,6 +118,10 @@ structure Sys where
   names : List String          -- thread i ↦ name (S-reset thread appended last)
   sReset : List Sec
 
+/-- threads of a round: the steady builder's mocks (thread 0, phase 1), builders and callers (phase 2), the steady builder's
+    reset `S'` (last thread, phase 3).  As ONE system this is not `Disjoint` (S writes what the callers call); the theorems
+    apply phase-wise: `JAt_after_solo` (phase 1), the quiet-state theorems with `prog2` = builders + callers (phase 2),
+    `steady_targets_restored` (phase 3).  The schedules the driver runs (`seqSchedule`, `shuffleSchedule`) respect the phases. -/
 def mkSys (r : Round) : Sys :=
   let callers := r.threads.filter (·.name.startsWith "C")
   let progs : List (List Sec) := r.threads.map (fun th =>
@@ -182,7 +186,9 @@ def shuffleSchedule (sy : Sys) (seed : Nat) : List Nat :=
       let x' := (x * 1103515245 + 12345) % 2147483648
       go k x' ((mids.getD ((x' / 65536) % (max mids.length 1)) 0) :: acc)
   first.flatMap (fun t => List.replicate (fuelOf sy t) t) ++ go (total / 2) (seed + 1) []
-    ++ mids.flatMap (fun t => List.replicate (fuelOf sy t) t) ++ List.replicate (fuelOf sy (n - 1)) (n - 1)
+    -- two completion passes: a thread that waits for the lock holder left over from the random part finishes in the second
+    ++ mids.flatMap (fun t => List.replicate (fuelOf sy t) t) ++ mids.flatMap (fun t => List.replicate (fuelOf sy t) t)
+    ++ List.replicate (fuelOf sy (n - 1)) (n - 1)
 
 /-- lock / access skeleton of the model's sections in the vocabulary of harness/c11/skel (which extracts the same
     from the Go source).  The section bodies come from `Conc.bodyOf` / `Conc.wscript`, so the strings change when the
